@@ -89,6 +89,31 @@ def call_case(draw, *, max_params=5, want_return=None, mutate=0.08):
     mode = draw(st.sampled_from(["var", "mixed", "bcast", "mixed"]))
     if mode != "mixed":
         k = max(k, 2)
+    # 'var' sub-mode: every argument is exactly '*v' / '*#v' and the shapes walk through the states of one variadic binding on purpose
+    # (bound by a broadcastable use, pinned by a plain use of the same shape, then grown / shrunk / kept by later uses)
+    grow = mode == "var" and draw(st.integers(0, 2)) == 0
+    running = []
+    if grow:
+        k = max(k, 3)
+        running = draw(st.lists(st.sampled_from([1, 1, 2, 3]), min_size=1, max_size=2))
+
+    def grow_entry():
+        nonlocal running
+        flag = draw(st.sampled_from(["*#", "*", "*", "#*"]))
+        how = draw(st.sampled_from(["same", "grow", "same", "rank", "one"]))
+        shape = list(running)
+        ones = [j for j, d in enumerate(shape) if d == 1]
+        if how == "grow" and ones:
+            shape[ones[draw(st.integers(0, len(ones) - 1))]] = draw(st.sampled_from([2, 3]))
+        elif how == "rank" and len(shape) < 4:
+            shape = [draw(st.sampled_from([2, 1, 3]))] + shape
+        elif how == "one" and shape:
+            shape[draw(st.integers(0, len(shape) - 1))] = 1
+        # the running broadcast of everything seen so far (when compatible)
+        a, b = [1] * (len(shape) - len(running)) + running, [1] * (len(running) - len(shape)) + shape
+        if all(x == y or x == 1 or y == 1 for x, y in zip(a, b)):
+            running = [max(x, y) for x, y in zip(a, b)]
+        return [dl.Token(flag, "name", "v")], tuple(shape)
 
     def focused_spec():
         """'var': [axis] *v|*#v [axis] over one shared variadic name; 'bcast': 1..3 axes over a,b with '#' often."""
@@ -102,14 +127,20 @@ def call_case(draw, *, max_params=5, want_return=None, mutate=0.08):
         return [T(draw(st.sampled_from(["#", "", "#"])), "name", draw(st.sampled_from(["a", "b", "a"]))) for _ in range(n)]
 
     for i in range(k):
-        if mode != "mixed":
+        forced_shape = None
+        if grow:
+            toks, forced_shape = grow_entry()
+        elif mode != "mixed":
             toks = focused_spec()
         else:
             toks = draw(gd.legal_spec(max_axes=4, bound=sorted(bound), names=CALL_NAMES, vnames=CALL_VNAMES, multi_prob=0.55))
         # drop symbolic axes that mention names not plainly bound earlier (quantifier of C02)
         toks = [t for t in toks if not (t.base_kind == "sym" and not dl.expr_names(t.base) <= bound)]
         meanings = [t.meaning() for t in toks]
-        shape, _ = draw(gd.shape_for(meanings, m, mutate_prob=mutate))
+        if forced_shape is not None:
+            shape = forced_shape
+        else:
+            shape, _ = draw(gd.shape_for(meanings, m, mutate_prob=mutate))
         o = dl.match(meanings, shape, m)
         if o.ctx is not None:
             m = o.ctx
@@ -118,6 +149,8 @@ def call_case(draw, *, max_params=5, want_return=None, mutate=0.08):
     ret = None
     if want_return is None:
         want_return = draw(st.sampled_from([True, False]))
+    if grow and want_return and draw(st.integers(0, 1)) == 0:
+        want_return = False  # (a return annotation makes the wrapper re-check the parameters in a second pass)
     if want_return:
         if mode != "mixed":
             toks = focused_spec()
